@@ -4,7 +4,7 @@ from .. import gen, layout, lspmodel
 
 LEXEMES = ["proc", "type", "var", "if", "else", "while", "array", "of", "ref", "int", "main", "x", "y1", "_a", "foo", "printi", "(", ")", "[", "]", "{", "}", ";", ":", ":=", "=", "#",
            "<", "<=", ">", ">=", "+", "-", "*", "/", ",", "0", "12", "007", "4294967295", "4294967296", "99999999999999999999", "0x1F", "0x", "0xFFFFFFFFF", "'a'", "'", "''", "'''",
-           "'\\n'", "'\\", "// c\n", "//", "// ü€😀\n", "é", "€", "😀", "ł", "\\", "\"", "@", "\x00", "_", "1x", "x1"]
+           "'\\n'", "'\\", "// c\n", "//", "// ü€😀\n", "é", "€", "😀", "ł", "\\", "\"", "@", "\x00", "_", "1x", "x1", "\x0c", "\xa0", "\u2028", "\ufeff"]
 SEPS = [" ", " ", " ", "\n", "\n", "\r\n", "\t", "", "", "  ", "\r", "\n\n"]
 
 
@@ -21,6 +21,12 @@ def nested(rng):
 
 
 def hostile_text(rng):
+    t = _hostile_text(rng)
+    if rng.random() < .06: t = "\ufeff" + t          # a byte order mark at the start of the document
+    return t
+
+
+def _hostile_text(rng):
     c = rng.random()
     if c < .3: return soup(rng, rng.choice([0, 1, 3, 10, 40, 150]))
     if c < .38: return nested(rng)
